@@ -199,14 +199,19 @@ Definition MK : bytes := RECODED_STR ++ helo ++ CRLF.
 (** the header as it was written when the entity is no multipart: the part in front of the recorded
     Content-Transfer-Encoding field [cenc], the lines of recodeheader() if the body is recoded, the part behind
     the field; without recoding of the body (or without such a field) the whole header is the second part *)
-Definition hdr_cont (st st' : St) (h : nat) (cenc : nat * nat) (br : bool) (t : bytes) : Prop :=
-  let cut := br && negb (Nat.eqb (snd cenc) 0) in
+Definition hdr_cont (st st' : St) (h : nat) (cenc : nat * nat) (mk cutok : bool) (t : bytes) : Prop :=
+  let cut := cutok && negb (Nat.eqb (snd cenc) 0) in
   let s := if cut then fst cenc else 0 in
   let e := if cut then fst cenc + snd cenc else 0 in
-  exists X1 X2 c, outof st' = outof st ++ X1 ++ (if br then MK else []) ++ X2 /\
+  exists X1 X2 c, outof st' = outof st ++ X1 ++ (if mk then MK else []) ++ X2 /\
     (c = [] \/ c = CRLF) /\ (c = [] <-> t = []) /\
     unfolds_to X1 (stuff (split_lines (sub m b s))) = true /\
     unfolds_to (X2 ++ c) (stuff (split_lines (sub m (b + e) (h - e)))) = true.
+
+(** a multipart container loses its Content-Transfer-Encoding field and gets no marker; another entity loses
+    the field and gets the marker iff its body is recoded *)
+Definition mk_of (mp : MpRes) (br : bool) : bool := match mp with MpNo => br | _ => false end.
+Definition cut_of (mp : MpRes) (br : bool) : bool := match mp with MpNo => br | _ => true end.
 
 (** the recorded Content-Transfer-Encoding field: inside the window, a whole field as getfieldlen() sees it
     (first line and continuation lines, ending with a line end), at the start of a line, with that name *)
@@ -217,19 +222,19 @@ Definition cenc_ok (h : nat) (cenc : nat * nat) : Prop :=
 Definition hdr_pos (h : nat) : Prop :=
   h = hpos 0 w \/ (exists c0 r, w = c0 :: r /\ is_eol c0 = true /\ skipn h w = after_eol c0 r).
 
-(** what qp_header hands on when it does not give up *)
-Definition hdr_done (br : bool) (st : St) (r : Run (nat * MpRes)) : Prop :=
+(** what qp_header hands on when it does not give up; [h0], [ct], [cenc]: what its header analysis found *)
+Definition hdr_done (br : bool) (h0 : nat) (ct cenc : nat * nat) (st : St) (r : Run (nat * MpRes)) : Prop :=
   match r with
   | Die _ st' => st' = st
   | Done (h, mp) st' =>
-      1 <= h <= len /\
-      (exists ls ll, is_multipart m ls ll = Ok mp) /\
+      h = h0 /\ 1 <= h <= len /\
+      is_multipart m (b + fst ct) (snd ct) = Ok mp /\
       (forall bs bl, mp = MpYes bs bl -> 1 <= bl <= BOUNDARY_MAX /\ bs + bl <= length m) /\
       (hdr_pos h /\ (mp = MpNo \/ exists bs bl, mp = MpYes bs bl)) /\
       existsb is8 (sub m b h) = false /\
       longrun 0 (skipn h w) = longrun 0 (skipn (hpos 0 w) w) /\
       exists t, good ext8 D0 st' t /\ (h < len \/ ends_eol w = true -> t = []) /\
-                (mp = MpNo -> exists cenc, cenc_ok h cenc /\ hdr_cont st st' h cenc br t)
+                cenc_ok h cenc /\ hdr_cont st st' h cenc (mk_of mp br) (cut_of mp br) t
   end.
 
 (** the part of qp_header behind is_multipart(), given how the pieces of the header window behave *)
@@ -269,7 +274,7 @@ Lemma hdr_match (C : Prop) (h : nat) (mp : MpRes) (cenc : nat * nat) (body_recod
     | Die _ st' => st' = st
     | Done (h', mp') st' => h' = h /\ mp' = mp /\ (mp = MpNo \/ exists bs bl, mp = MpYes bs bl) /\
                             exists t, good ext8 D0 st' t /\ (C -> t = []) /\
-                            (mp = MpNo -> hdr_cont st st' h cenc body_recode t)
+                            hdr_cont st st' h cenc (mk_of mp body_recode) (cut_of mp body_recode) t
     end.
 Proof.
   intros Hg PW P1 P2.
@@ -308,23 +313,25 @@ Proof.
     split; [rewrite sub_0; reflexivity|]. rewrite Nat.add_0_r, Nat.sub_0_r. exact U. }
   destruct mp as [bs bl| | |w0].
   - destruct (Nat.eqb_spec (snd cenc) 0) as [Hz|Hnz]; cbn [negb].
-    + destruct (Whole st [] Hg ltac:(now rewrite app_nil_r)) as (st1 & t & E & G & Ht & _). rewrite E.
-      eexists. split; [reflexivity|]. cbn. split; [reflexivity|]. split; [reflexivity|]. split; [right; eauto|]. exists t. split; [exact G|]. split; [exact Ht|discriminate].
-    + destruct (Split (fun s => s) [] (fun s H => H) ltac:(intros; now rewrite app_nil_r) Hnz) as (st3 & t & E & G & Ht & _). rewrite E.
-      eexists. split; [reflexivity|]. cbn. split; [reflexivity|]. split; [reflexivity|]. split; [right; eauto|]. exists t. split; [exact G|]. split; [exact Ht|discriminate].
+    + destruct (Whole st [] Hg ltac:(now rewrite app_nil_r)) as (st1 & t & E & G & Ht & (X2 & c & O & Hc & I & U1 & U2)). rewrite E.
+      eexists. split; [reflexivity|]. cbn beta iota. split; [reflexivity|]. split; [reflexivity|]. split; [right; eauto|]. exists t. split; [exact G|]. split; [exact Ht|].
+      unfold hdr_cont. cbn [mk_of cut_of]. apply Nat.eqb_eq in Hz. rewrite Hz. cbn [andb negb]. exists [], X2, c. auto.
+    + destruct (Split (fun s => s) [] (fun s H => H) ltac:(intros; now rewrite app_nil_r) Hnz) as (st3 & t & E & G & Ht & (X1 & X2 & c & O & Hc & I & U1 & U2)). rewrite E.
+      eexists. split; [reflexivity|]. cbn beta iota. split; [reflexivity|]. split; [reflexivity|]. split; [right; eauto|]. exists t. split; [exact G|]. split; [exact Ht|].
+      unfold hdr_cont. cbn [mk_of cut_of]. apply Nat.eqb_neq in Hnz. rewrite Hnz. cbn [andb negb]. exists X1, X2, c. auto.
   - destruct body_recode; cbn [negb].
     + destruct (Nat.eqb_spec (snd cenc) 0) as [Hz|Hnz]; cbn [negb].
       * destruct (Whole (recodeheader helo st) MK (Hrh st Hg) ltac:(apply outof_wr)) as (st1 & t & E & G & Ht & (X2 & c & O & Hc & I & U1 & U2)).
         rewrite E. eexists. split; [reflexivity|]. cbn beta iota. split; [reflexivity|]. split; [reflexivity|]. split; [left; reflexivity|].
-        exists t. split; [exact G|]. split; [exact Ht|]. intros _. unfold hdr_cont. apply Nat.eqb_eq in Hz. rewrite Hz. cbn [andb negb].
+        exists t. split; [exact G|]. split; [exact Ht|]. unfold hdr_cont. cbn [mk_of cut_of]. apply Nat.eqb_eq in Hz. rewrite Hz. cbn [andb negb].
         exists [], X2, c. auto.
       * destruct (Split (recodeheader helo) MK Hrh ltac:(intros; apply outof_wr) Hnz) as (st3 & t & E & G & Ht & (X1 & X2 & c & O & Hc & I & U1 & U2)).
         cbv zeta. rewrite E. eexists. split; [reflexivity|]. cbn beta iota. split; [reflexivity|]. split; [reflexivity|]. split; [left; reflexivity|].
-        exists t. split; [exact G|]. split; [exact Ht|]. intros _. unfold hdr_cont. apply Nat.eqb_neq in Hnz. rewrite Hnz. cbn [andb negb].
+        exists t. split; [exact G|]. split; [exact Ht|]. unfold hdr_cont. cbn [mk_of cut_of]. apply Nat.eqb_neq in Hnz. rewrite Hnz. cbn [andb negb].
         exists X1, X2, c. auto.
     + destruct (Whole st [] Hg ltac:(now rewrite app_nil_r)) as (st1 & t & E & G & Ht & (X2 & c & O & Hc & I & U1 & U2)). rewrite E.
       eexists. split; [reflexivity|]. cbn beta iota. split; [reflexivity|]. split; [reflexivity|]. split; [left; reflexivity|].
-      exists t. split; [exact G|]. split; [exact Ht|]. intros _. unfold hdr_cont. cbn [andb].
+      exists t. split; [exact G|]. split; [exact Ht|]. unfold hdr_cont. cbn [mk_of cut_of andb].
       exists [], X2, c. auto.
   - eexists. split; [reflexivity|reflexivity].
   - eexists. split; [reflexivity|reflexivity].
@@ -372,7 +379,7 @@ Lemma hdr_tail (h : nat) (ct cenc : nat * nat) (body_recode : bool) (st : St) :
       exists st' t, wrap_header m (b + (fst cenc + snd cenc)) (h - (fst cenc + snd cenc)) st0 = Ok st' /\
                     good ext8 D0 st' t /\ (h < len \/ ends_eol w = true -> t = []) /\
                     cont (sub m (b + (fst cenc + snd cenc)) (h - (fst cenc + snd cenc))) st0 st' t)) ->
-  exists r, hdr_rest h ct cenc body_recode st = Ok r /\ hdr_done body_recode st r.
+  exists r, hdr_rest h ct cenc body_recode st = Ok r /\ hdr_done body_recode h ct cenc st r.
 Proof.
   intros Hg Hh Hct Hlr Hcok Hpos Pieces. unfold hdr_rest.
   rewrite (need_recode_ok m b h) by lia. cbn [bind].
@@ -385,25 +392,39 @@ Proof.
   rewrite Emp. cbn [bind].
   destruct (hdr_match (h < len \/ ends_eol w = true) h mp cenc body_recode st Hg PW P1 P2) as (r & Er & Hr).
   exists r. split; [exact Er|]. destruct r as [[h' mp'] st'|why st']; [|exact Hr].
-  destruct Hr as (-> & -> & Hkind & t & Gt & Ht & Hcont). unfold hdr_done. split; [exact Hh|]. split; [eauto|]. split.
+  destruct Hr as (-> & -> & Hkind & t & Gt & Ht & Hcont). unfold hdr_done. split; [reflexivity|]. split; [exact Hh|]. split; [exact Emp|]. split.
   - intros bs bl ->. destruct (Hmp bs bl eq_refl) as (Hbl & Hbs & Hbe). split; [exact Hbl|].
     destruct Hct as [Hz|(_ & B & _)]; [rewrite Hz in Hbe; lia|lia].
   - split; [split; [exact Hpos|exact Hkind]|]. split; [exact H8|]. split; [exact Hlr|]. exists t. split; [exact Gt|]. split; [exact Ht|].
-    intros Emp'. exists cenc. split; [exact Hcok|]. apply Hcont. exact Emp'.
+    split; [exact Hcok|exact Hcont].
 Qed.
 
+(** the header analysis of qp_header with what follows it as a parameter *)
+Definition qh_front {A} (K : nat -> nat * nat -> nat * nat -> Cres A) : Cres A :=
+  do c0 <- rd m b;
+  do header0 <-
+    (if N.eqb c0 CR then
+       if Nat.ltb 1 len then do c1 <- rd m (S b); Ok (if N.eqb c1 LF then 2 else 1) else Ok 1
+     else if N.eqb c0 LF then Ok 1 else Ok 0);
+  do r <- (if Nat.eqb header0 0 then qh_scan (2 * len + 2) m b len header0 (0, 0) (0, 0)
+           else Ok (header0, header0, (0, 0), (0, 0)));
+  let '(header, off, ctype, cenc) := r in
+  K (if Nat.eqb header 0 then len else header) ctype cenc.
+
+(** what the analysis finds: end of the header, Content-Type field, Content-Transfer-Encoding field *)
+Definition qh_view : Cres (nat * (nat * nat) * (nat * nat)) := qh_front (fun h ct ce => Ok (h, ct, ce)).
+
 Lemma qp_header_eq body_recode st :
-  qp_header m helo b len body_recode st =
-  (do c0 <- rd m b;
-   do header0 <-
-     (if N.eqb c0 CR then
-        if Nat.ltb 1 len then do c1 <- rd m (S b); Ok (if N.eqb c1 LF then 2 else 1) else Ok 1
-      else if N.eqb c0 LF then Ok 1 else Ok 0);
-   do r <- (if Nat.eqb header0 0 then qh_scan (2 * len + 2) m b len header0 (0, 0) (0, 0)
-            else Ok (header0, header0, (0, 0), (0, 0)));
-   let '(header, off, ctype, cenc) := r in
-   hdr_rest (if Nat.eqb header 0 then len else header) ctype cenc body_recode st).
+  qp_header m helo b len body_recode st = qh_front (fun h ct ce => hdr_rest h ct ce body_recode st).
 Proof. reflexivity. Qed.
+
+Lemma qh_front_bind {A} (K : nat -> nat * nat -> nat * nat -> Cres A) :
+  qh_front K = do v <- qh_view; let '(h, ct, ce) := v in K h ct ce.
+Proof.
+  unfold qh_view, qh_front. destruct (rd m b) as [c0| |]; cbn [bind]; try reflexivity.
+  match goal with |- context [bind ?x _] => destruct x as [h0| |]; cbn [bind]; try reflexivity end.
+  match goal with |- context [bind ?x _] => destruct x as [[[[hd o] ct] ce]| |]; cbn [bind]; reflexivity end.
+Qed.
 
 Lemma sub_prefix k : k <= len -> sub m b k = firstn k w.
 Proof.
@@ -422,7 +443,7 @@ Proof. intros H. destruct l; [discriminate|]. unfold open_line. now rewrite H. Q
 Lemma hdr_eol_case (c0 : N) (r : bytes) (h : nat) body_recode st :
   good ext8 D0 st [] -> w = c0 :: r -> is_eol c0 = true -> 1 <= h <= 2 -> h <= len ->
   skipn h w = after_eol c0 r -> ends_eol (firstn h w) = true ->
-  exists res, hdr_rest h (0, 0) (0, 0) body_recode st = Ok res /\ hdr_done body_recode st res.
+  exists res, hdr_rest h (0, 0) (0, 0) body_recode st = Ok res /\ hdr_done body_recode h (0, 0) (0, 0) st res.
 Proof.
   intros Hg Ew He Hh Hhl Hsk Hends.
   assert (Hcok : cenc_ok h (0, 0)).
@@ -443,7 +464,8 @@ Lemma hdr_scan_case (hd o' : nat) (ct' ce' : nat * nat) body_recode st :
   good ext8 D0 st [] -> is_eol (nth 0 w 0%N) = false ->
   scan_post m b len hd -> fld_inv2 m b len ct' -> fld_inv2 m b len ce' ->
   (hd <> 0 -> fle hd ce') -> cte_named m b len ce' ->
-  exists res, hdr_rest (if Nat.eqb hd 0 then len else hd) ct' ce' body_recode st = Ok res /\ hdr_done body_recode st res.
+  exists res, hdr_rest (if Nat.eqb hd 0 then len else hd) ct' ce' body_recode st = Ok res /\
+              hdr_done body_recode (if Nat.eqb hd 0 then len else hd) ct' ce' st res.
 Proof.
   intros Hg Hc0 Hpost Fct Fce Hmono Hnamed.
   set (h := if Nat.eqb hd 0 then len else hd).
@@ -508,10 +530,19 @@ Proof.
 Qed.
 
 (** qp_header: gives up without output, or has written the header as complete legal lines *)
-Lemma qp_header_spec body_recode st : good ext8 D0 st [] ->
-  exists res, qp_header m helo b len body_recode st = Ok res /\ hdr_done body_recode st res.
+(** the analysis, whatever follows: the message begins with an empty line, or the scan found the header *)
+Lemma qh_front_cases {A} (K : nat -> nat * nat -> nat * nat -> Cres A) (Q : A -> Prop) :
+  (forall c0 r h, w = c0 :: r -> is_eol c0 = true -> 1 <= h <= 2 -> h <= len ->
+     skipn h w = after_eol c0 r -> ends_eol (firstn h w) = true ->
+     exists res, K h (0, 0) (0, 0) = Ok res /\ Q res) ->
+  (forall hd o' ct' ce', qh_scan (2 * len + 2) m b len 0 (0, 0) (0, 0) = Ok (hd, o', ct', ce') ->
+     is_eol (nth 0 w 0%N) = false ->
+     scan_post m b len hd -> fld_inv2 m b len ct' -> fld_inv2 m b len ce' ->
+     (hd <> 0 -> fle hd ce') -> cte_named m b len ce' ->
+     exists res, K (if Nat.eqb hd 0 then len else hd) ct' ce' = Ok res /\ Q res) ->
+  exists res, qh_front K = Ok res /\ Q res.
 Proof.
-  intros Hg. rewrite qp_header_eq.
+  intros Heol Hscan. unfold qh_front.
   assert (Hr0 : rd m b = Ok (nth 0 w 0%N)).
   { rewrite rd_ok by lia. f_equal. unfold w. rewrite nth_sub by lia. f_equal. lia. }
   rewrite Hr0. cbn [bind].
@@ -529,17 +560,17 @@ Proof.
         rewrite Hr1. cbn [bind]. rewrite Ew.
         destruct r as [|c1 r1]; [cbn in Hlen; lia|]. cbn [nth].
         destruct (N.eqb_spec c1 LF) as [HLF|HnLF]; cbn [bind Nat.eqb].
-        -- apply (hdr_eol_case c0 (c1 :: r1)); [exact Hg|exact Ew|exact He|lia|lia| |].
+        -- apply (Heol c0 (c1 :: r1)); [exact Ew|exact He|lia|lia| |].
            ++ rewrite Ew. unfold after_eol. subst c0 c1. reflexivity.
            ++ rewrite Ew. subst c1. reflexivity.
-        -- apply (hdr_eol_case c0 (c1 :: r1)); [exact Hg|exact Ew|exact He|lia|lia| |exact Hends1].
+        -- apply (Heol c0 (c1 :: r1)); [exact Ew|exact He|lia|lia| |exact Hends1].
            rewrite Ew. unfold after_eol. apply N.eqb_neq in HnLF. rewrite HnLF, Bool.andb_false_r. reflexivity.
-      * cbn [bind Nat.eqb]. apply (hdr_eol_case c0 r); [exact Hg|exact Ew|exact He|lia|lia| |exact Hends1].
+      * cbn [bind Nat.eqb]. apply (Heol c0 r); [exact Ew|exact He|lia|lia| |exact Hends1].
         rewrite Ew. destruct r as [|c1 r1]; [reflexivity|cbn in Hlen; lia].
     + assert (HLF : N.eqb c0 LF = true).
       { unfold is_eol in He. apply N.eqb_neq in HnCR. rewrite HnCR in He. exact He. }
       rewrite HLF. cbn [bind Nat.eqb].
-      apply (hdr_eol_case c0 r); [exact Hg|exact Ew|exact He|lia|lia| |exact Hends1].
+      apply (Heol c0 r); [exact Ew|exact He|lia|lia| |exact Hends1].
       rewrite Ew. unfold after_eol. apply N.eqb_neq in HnCR. rewrite HnCR. destruct r; reflexivity.
   - assert (HnCR : N.eqb c0 CR = false) by (unfold is_eol in He; now apply Bool.orb_false_elim in He).
     assert (HnLF : N.eqb c0 LF = false) by (unfold is_eol in He; now apply Bool.orb_false_elim in He).
@@ -552,10 +583,31 @@ Proof.
     + split; [left; reflexivity|]. intros Hn. cbn in Hn. contradiction.
     + split; [left; reflexivity|]. intros Hn. cbn in Hn. contradiction.
     + rewrite E. cbn [bind]. cbv beta iota.
-      apply hdr_scan_case; try assumption.
+      apply (Hscan hd o' ct' ce' E); try assumption.
       * rewrite Ew. exact He.
       * intros Hnz. apply (qh_scan_mono m b len _ 0 (0, 0) (0, 0) hd o' ct' ce' E Hnz); intros Hn; cbn in Hn; contradiction.
       * apply (qh_scan_cte m b len _ 0 (0, 0) (0, 0) hd o' ct' ce' E). intros Hn. cbn in Hn. contradiction.
+Qed.
+
+Lemma qp_header_spec body_recode st : good ext8 D0 st [] ->
+  exists h ct cenc res, qh_view = Ok (h, ct, cenc) /\
+    qp_header m helo b len body_recode st = Ok res /\ hdr_done body_recode h ct cenc st res.
+Proof.
+  intros Hg.
+  destruct (qh_front_cases
+              (fun h ct ce => do res <- hdr_rest h ct ce body_recode st; Ok (h, ct, ce, res))
+              (fun q => let '(h, ct, ce, res) := q in hdr_done body_recode h ct ce st res)) as (q & E & HQ).
+  - intros c0 r h Ew He Hh Hhl Hsk Hends.
+    destruct (hdr_eol_case c0 r h body_recode st Hg Ew He Hh Hhl Hsk Hends) as (res & Er & Hd).
+    rewrite Er. cbn [bind]. eexists. split; [reflexivity|exact Hd].
+  - intros hd o' ct' ce' _ Hc0 Hpost Fct Fce Hmono Hnamed.
+    destruct (hdr_scan_case hd 0 ct' ce' body_recode st Hg Hc0 Hpost Fct Fce Hmono Hnamed) as (res & Er & Hd).
+    rewrite Er. cbn [bind]. eexists. split; [reflexivity|exact Hd].
+  - destruct q as [[[h ct] ce] res]. exists h, ct, ce, res.
+    rewrite qh_front_bind in E. rewrite qp_header_eq, qh_front_bind.
+    destruct qh_view as [[[h' ct'] ce']| |]; cbn [bind] in E |- *; try discriminate.
+    destruct (hdr_rest h' ct' ce' body_recode st) as [res'| |] eqn:Er; cbn [bind] in E; try discriminate.
+    inversion E; subst. split; [reflexivity|]. split; [reflexivity|exact HQ].
 Qed.
 
 Lemma ends_eol_skipn (l : bytes) k : k < length l -> ends_eol (skipn k l) = ends_eol l.
@@ -610,10 +662,10 @@ Proof.
   intros Hb Hg Hnm. rewrite send_qp_S. rewrite (need_recode_ok m b len Hw). cbn [bind].
   destruct (Nat.eqb_spec len 0) as [H0|_]; [lia|]. cbv zeta. fold w.
   set (rf := nr_fun w flags0 0 false).
-  destruct (qp_header_spec (f8 rf || fline rf) st Hg) as (res & E & Hd). rewrite E.
+  destruct (qp_header_spec (f8 rf || fline rf) st Hg) as (h0 & ct & cenc & res & _ & E & Hd). rewrite E.
   destruct res as [[h mp] st1|why st1]; cbn [bindR].
   2: { eexists. split; [reflexivity|]. exact Hd. }
-  destruct Hd as (Hh & (ls & ll & Emp) & _ & _ & H8 & Hlr & t & Gt & Ht & Hcont).
+  destruct Hd as (_ & Hh & Emp & _ & _ & H8 & Hlr & t & Gt & Ht & Hcont).
   destruct (Nat.ltb_spec len h) as [Hbad|_]; [lia|].
   assert (Body : exists res,
             (if f8 rf || fline rf then liftS (recode_qp m (b + h) (len - h) st1)
@@ -621,7 +673,7 @@ Proof.
             match res with Die _ st' => st' = st | Done _ st' => exists t, good ext8 D0 st' t end).
   { destruct (entity_body h st1 t Hb Hh Hlr Gt Ht) as (st2 & t2 & E2 & G2 & _). fold rf in E2.
     rewrite E2. eexists. split; [reflexivity|]. exists t2. exact G2. }
-  destruct mp as [bs bl| | |why]; [exfalso; apply (Hnm ls ll bs bl Emp)|exact Body|exact Body|exact Body].
+  destruct mp as [bs bl| | |why]; [exfalso; apply (Hnm _ _ bs bl Emp)|exact Body|exact Body|exact Body].
 Qed.
 
 End Entity.
